@@ -23,17 +23,23 @@ UnfSet(e)    == { e.unf[i] : i \in 1..Len(e.unf) }
 \* ---- clauses (each TRUE when satisfied) ----
 NoPanic(e) == e.st \notin {"Panic", "HarnessErr", "Fatal"}
 Opens(e)   == e.opens
-NamesOriginal(e) == \A i \in 1..Len(e.files) : e.files[i].known
-Prefix(e)  == \A i \in 1..Len(e.files) : e.files[i].bad = -1 /\ e.files[i].readable
+\* soundness clauses are demanded for cut archives in both modes, and for damaged archives in authenticated mode
+\* (unauthenticated repair of a damaged archive is "at your own risk": garbage in, garbage out)
+Trusted == A.mode = "auth" \/ A.badchunk = -1
+NamesOriginal(e) == Trusted => \A i \in 1..Len(e.files) : e.files[i].known
+\* contents are prefixes of the originals (in unauthenticated mode a damaged chunk may of course decode to garbage)
+Prefix(e)  == Trusted => \A i \in 1..Len(e.files) : e.files[i].bad = -1 /\ e.files[i].readable
 FinishedIdentical(e) ==
-  \A i \in 1..Len(e.files) : (e.files[i].known /\ e.files[i].n \notin UnfSet(e)) => e.files[i].len = SizeOfName(A, e.files[i].n)
+  Trusted => \A i \in 1..Len(e.files) : (e.files[i].known /\ e.files[i].n \notin UnfSet(e)) => e.files[i].len = SizeOfName(A, e.files[i].n)
 EndOnlyIfComplete(e) ==
-  e.st = "End" => /\ FileNames(e) = AllNames(A) /\ UnfSet(e) = {}
+  (Trusted /\ e.st = "End") => /\ FileNames(e) = AllNames(A) /\ UnfSet(e) = {}
                   /\ \A i \in 1..Len(e.files) : e.files[i].known => e.files[i].len = SizeOfName(A, e.files[i].n)
 CompleteOnIntact(e) == e.cut = A.total => e.st = "End"
 \* exactness without compression: everything present (or in complete chunks) is recovered, nothing else
 Exact(e) ==
   A.comp \/ e.st \in {"Panic", "HarnessErr", "Fatal"} \/
+  \* with a damaged chunk: exact only in authenticated mode (and chunk 0 is exempt as built, finding D4)
+  (A.badchunk # -1 /\ (A.mode # "auth" \/ A.badchunk = 0)) \/
   LET P == Budget(A, e.cut, A.mode)[1] IN
   /\ FileNames(e) = { A.sizes[NameOf(A, id)].n : id \in Started(A, P) }
   /\ \A i \in 1..Len(e.files) : e.files[i].known => e.files[i].len = RecOf(A, IdOfName(A, e.files[i].n), P)
@@ -43,7 +49,8 @@ Exact(e) ==
 AuthOnlyVerified(e) ==
   (A.enc /\ A.mode = "auth") =>
      LET P == Budget(A, e.cut, "strict")[2] IN
-     \A i \in 1..Len(e.files) : e.files[i].known => e.files[i].len <= RecOf(A, IdOfName(A, e.files[i].n), P)
+     /\ \A i \in 1..Len(e.files) : e.files[i].known => e.files[i].len <= RecOf(A, IdOfName(A, e.files[i].n), P)
+     /\ \A i \in 1..Len(e.files) : e.files[i].known => IdOfName(A, e.files[i].n) \in Started(A, P)
 Monotone(e) ==
   \A n \in DOMAIN best : n \in FileNames(e) /\ LenOf(e, n) >= best[n]
 UnauthAtLeastAuth(e) ==
@@ -80,7 +87,7 @@ Repair ==
   /\ LET e == Rec[l]  c == Clauses(e) IN
      /\ bad' = IF c = {} THEN bad
                ELSE Append(bad, [line |-> l, sid |-> A.sid, mode |-> A.mode, enc |-> A.enc, comp |-> A.comp,
-                                 cut |-> e.cut, H |-> A.H, total |-> A.total, st |-> e.st, clauses |-> c,
+                                 cut |-> e.cut, H |-> A.H, badchunk |-> A.badchunk, total |-> A.total, st |-> e.st, clauses |-> c,
                                  chunk |-> IF A.enc THEN (Max(0, e.cut - A.H)) \div (A.CH + A.TAG) ELSE -1,
                                  inchunk |-> IF A.enc THEN (Max(0, e.cut - A.H)) % (A.CH + A.TAG) ELSE -1])
      /\ best' = MaxBest(e)
